@@ -223,14 +223,20 @@ def check_against_model(shard, obs, tbs, m):
         if not (0 <= s <= e < len(E)):
             continue
         # the range may or may not include the tail pulse: "first and last edge of the block's data" allows both
+        # ... and the first measured distance may include the pauses played since the previous edge. A reading is
+        # accepted when some admissible (tail, silence) pair turns the distances into exactly the block's bits: with a
+        # silence of 1 T and pulses of 1 and 2 T a wrong pair can also "decode", to other bits, so every pair is tried.
+        exp = tm.data_bits(tb.data, tb.used)
         bits = why = None
         for tail in ([tb.tail, 0] if rg['tail'] else [0]):
             for gap in rg['gaps']:
-                bits, why1 = tm.decode_bits(E, s, e, tb.s0, tb.s1, tail, gap)
+                bits1, why1 = tm.decode_bits(E, s, e, tb.s0, tb.s1, tail, gap)
                 why = why or why1
-                if bits is not None:
+                if bits1 is not None and (bits is None or bits1 == exp):
+                    bits = bits1
+                if bits == exp:
                     break
-            if bits is not None:
+            if bits == exp:
                 break
         shard.inc('monitor:blocks_decoded_from_edges')
         if bits is None:
@@ -238,7 +244,6 @@ def check_against_model(shard, obs, tbs, m):
                 tb.num, len(tb.data), tb.used, tb.s0, tb.s1, tb.tail, s, e, why)))
             continue
         shard.inc('observed:bits_decoded', len(bits))
-        exp = tm.data_bits(tb.data, tb.used)
         if bits != exp:
             k = first_diff(bits, exp)
             bad.append(('bits', 'block %s (%d bytes, used %d): %d bits decoded from edges %d..%d, the block has %d bits; first difference at bit %d' % (
